@@ -181,6 +181,7 @@ func cmdMgr(args []string) {
 	out := fs.String("out", "trace.ndjson", "trace output")
 	dir := fs.String("dir", os.TempDir(), "scratch directory")
 	backups := fs.Bool("backups", false, "enable shard backups on unload")
+	backupFail := fs.Bool("backupfail", false, "with -backups: every backup copy fails (file name too long)")
 	stepMs := fs.Int("step-ms", 1500, "timeout per step in ms")
 	stress := fs.Int("stress", 0, "number of free-running stress rounds after the behaviours")
 	seed := fs.Int64("seed", 1, "seed of the stress rounds")
@@ -203,7 +204,7 @@ func cmdMgr(args []string) {
 	drifted, stuck := 0, 0
 	var driftSamples []string
 	for i, b := range bs {
-		d, st := mgrd.Replay(i, b, *dir, tw, mgrd.Opts{StepTimeout: time.Duration(*stepMs) * time.Millisecond, Backups: *backups})
+		d, st := mgrd.Replay(i, b, *dir, tw, mgrd.Opts{StepTimeout: time.Duration(*stepMs) * time.Millisecond, Backups: *backups, BackupFail: *backupFail})
 		if len(d) > 0 {
 			drifted++
 			if len(driftSamples) < 5 {
